@@ -6,6 +6,7 @@ import (
 	"encoding/json"
 	"fmt"
 	"os"
+	"os/exec"
 	"path/filepath"
 	"testing"
 
@@ -89,7 +90,13 @@ func TestVerifC11ViewerConfig(t *testing.T) {
 				continue
 			}
 			if upVersion != version {
-				res.Inconc(fmt.Sprintf("the go command resolved latest to %s, published %s", upVersion, version))
+				// who is behind: the go command (not this check's subject) or the
+				// uploader's Download? Ask the go command directly.
+				if w := c11GoResolves(); w == version {
+					res.Violate("uploader-config-stale", fmt.Sprintf("release %s is what the go command resolves latest to, but the uploader's Download(latest) of this process returned %s", version, upVersion), rp)
+				} else {
+					res.Inconc(fmt.Sprintf("the go command resolved latest to %s (witness %q), published %s", upVersion, w, version))
+				}
 				continue
 			}
 			for _, nm := range names {
@@ -139,4 +146,21 @@ func expandC11(name string) []string {
 		}
 	}
 	return []string{name}
+}
+
+// c11GoResolves asks the go command, under the process's current environment,
+// which version of the configuration module "latest" is.
+func c11GoResolves() string {
+	dir, err := os.MkdirTemp("", "c11w")
+	if err != nil {
+		return ""
+	}
+	defer os.RemoveAll(dir)
+	os.WriteFile(filepath.Join(dir, "go.mod"), []byte("module witness\n\ngo 1.20\n"), 0o644)
+	cmd := exec.Command("go", "mod", "download", "-json", configstore.ModulePath+"@latest")
+	cmd.Dir = dir
+	out, _ := cmd.Output()
+	var v struct{ Version string }
+	json.Unmarshal(out, &v)
+	return v.Version
 }
